@@ -76,6 +76,8 @@ struct Options {
   char replica = 0;  // 0, 'L' or 'C'
   int instBase = 0;  // allocator instance numbers start here (unique across replicas)
   uint64_t srcSeed = 0;
+  unsigned bernDen = 0;     // every failable allocator call fails with probability 1/bernDen (0: off)
+  uint64_t bernSeed = 0;
   bool useDefaultAlloc = false;  // documents on the library's default allocator (shared by all threads)
   const ArduinoJson::JsonDocument* shared = nullptr;  // a document every task only reads (conc)
   Val sharedModel;
